@@ -234,7 +234,13 @@ def load_findings():
 
 
 def findings_for(pid):
-    return [f for f in load_findings()["finding"] if f["property"] == pid]
+    """the findings listed for pid, plus the hangs listed under C06 (key STALL/...): a command that never
+    replies ends the case in every trace-based check, whatever property the check is about"""
+    fs = load_findings()["finding"]
+    own = [f for f in fs if f["property"] == pid]
+    have = set(f.get("key") for f in own)
+    shared = [f for f in fs if f["property"] == "C06" and str(f.get("key", "")).startswith("STALL/") and f.get("key") not in have]
+    return own + (shared if pid != "C06" else [])
 
 
 # ---- reporting ----------------------------------------------------------------
